@@ -521,6 +521,9 @@ impl ChanParams {
 // World
 // ------------------------------------------------------------------------------------------
 
+/// height of the older checkpoint of `WorldCfg::old_checkpoint`
+pub const OLD_CHECKPOINT_HEIGHT: u32 = 2_000_000;
+
 #[derive(Clone)]
 pub struct WorldCfg {
     pub pv: u32,
@@ -539,6 +542,15 @@ pub struct WorldCfg {
     pub permanent_ids: bool,
     /// the signer writes through vls-persist's BackupPersister (a main and a backup store)
     pub backup: bool,
+    /// the store was initialised when the network's newest built-in checkpoint was an older one: the
+    /// tracker of the new node is re-based (height, tip, nothing remembered below) at a height
+    /// between genesis and the newest checkpoint and stored; only meaningful on a network that has
+    /// checkpoints (testnet)
+    pub old_checkpoint: bool,
+    /// two further ready channels that never see a transaction (ids 8 and 9), with funding outpoints
+    /// that sort before and after every real one: the tracker then notifies several monitors per
+    /// block, and the one a block matters to is neither the first nor the last
+    pub bystanders: bool,
 }
 
 /// A persister that can be handed to the composite `BackupPersister` by value while the harness
@@ -635,6 +647,8 @@ impl Default for WorldCfg {
             cloud: false,
             permanent_ids: false,
             backup: false,
+            old_checkpoint: false,
+            bystanders: false,
         }
     }
 }
@@ -745,7 +759,33 @@ impl World {
         let store = HStore::new(cfg.cloud);
         let persister = Arc::new(KVVPersister(store, JsonFormat));
         let backup = if cfg.backup { Some(Arc::new(KVVPersister(HStore::new(false), JsonFormat))) } else { None };
-        Self::build_with_backup(cfg, persister, backup, START_TIME)
+        let old = cfg.old_checkpoint;
+        let bystanders = cfg.bystanders;
+        let w = Self::build_with_backup(cfg, persister, backup, START_TIME);
+        if bystanders {
+            for (dbid, fill) in [(8u64, 0x00u8), (9, 0xff)] {
+                let cp = Cp::new(120 + dbid as u8);
+                assert!(w.new_channel(dbid).is_ok());
+                let mut setup = w.default_setup(&cp, dbid, true, CommitmentType::StaticRemoteKey);
+                setup.funding_outpoint = OutPoint { txid: Txid::from_slice(&[fill; 32]).unwrap(), vout: 1 };
+                assert!(w.setup_channel(dbid, &setup).is_ok(), "bystander channel {}", dbid);
+            }
+            w.end_request();
+        }
+        if old {
+            let node = w.node.clone();
+            let mut t = node.get_tracker();
+            assert!(t.height() > OLD_CHECKPOINT_HEIGHT, "the network has no newer checkpoint than the old one");
+            let mut header = t.tip.0;
+            header.nonce = 4242;
+            t.height = OLD_CHECKPOINT_HEIGHT;
+            t.tip = lightning_signer::chain::tracker::Headers(header, lightning_signer::bitcoin::hash_types::FilterHeader::from_byte_array([9; 32]));
+            t.headers.clear();
+            node.get_persister().update_tracker(&node.get_id(), &t).expect("store the re-based tracker");
+            drop(t);
+            w.end_request();
+        }
+        w
     }
 
     pub fn validator_factory(cfg: &WorldCfg) -> Arc<dyn ValidatorFactory> {
